@@ -41,6 +41,12 @@ CHECKS = {
     'C08': dict(cat='other', tech='Kani/CBMC harnesses (bit-precise) + symbolic execution of MIR -> SMT',
                 text='Generator::new erases unused coordinates for every f64 bit pattern (Kani); vector_is_valid (Kani); box normalisation on both routes, active-subspace vertex radius, images and tripling only on active axes, no faces for normals outside the active subspace in all three face producers (MIR -> z3). The 1D closed form and 2D = 3D slab equalities are outside.',
                 note=TRUST_M + '; ' + TRUST_K, ref='DESIGN.md 4 C08'),
+    'C14': dict(cat='other', tech='rustc verdict on downstream implementability + symbolic execution of the MIR of the *_with_data methods, the decomposition and the built-in collectors -> SMT',
+                text='Compiler-decided (reported separately): a downstream crate implementing CellIntegral/FaceIntegral type-checks; a downstream *WithData impl with Data != () does not (E0119, known finding). Solver-decided: per-cell data alignment of the three *_with_data methods (3 cells, all presence patterns, symbolic data); every base triangle of the six tetrahedra emitted for a vertex lies in the plane of its plane_idx and ends at the vertex (symbolic vertex/planes); built-in collectors add exactly the signed measure and first moment per tetrahedron/triangle; each tetrahedron reaches the integrator of its own plane once. The global tiling (signed tetrahedra sum to the cell), second moments and with/without-faces agreement are outside.',
+                note=TRUST_M + '; rustc type checking', ref='DESIGN.md 4 C14'),
+    'C15': dict(cat='other', tech='symbolic execution of the MIR of with_faces / sort_face_vertices / the face accessors on catalogue cells -> SMT + structural checks',
+                text='with_faces on 1D/2D cells has no non-panicking path; the accessors neighbour/shift/clipping_plane/face_vertex_count/face_vertices return the indexed half-space / face data for symbolic labels (incl. the cell\'s own periodic image); on the catalogue (initial cube, tetrahedron, corner-cut cube; seeded storage orders and dual rotations: 7 quick / 41 thorough each) every vertex is in exactly the three faces of its dual, faces are single cycles with two shared planes per edge in the direction induced by the duals, V-E+F = 2, discard_faces().with_faces() is the identity and face data is present whenever accessed unchecked. The catalogue part is concrete execution through the interpreter, not a symbolic proof. Planarity/convexity/area are outside.',
+                note=TRUST_M + '; std Vec/slice/iterator semantics modelled positionally', ref='DESIGN.md 4 C15'),
     'C16': dict(cat='other', tech='symbolic execution of the MIR of from_dual, update_safety_radius, HalfSpace::new/clip and one builder-loop iteration -> SMT over the reals',
                 text='Solver-decided per-step lemma: active-subspace vertex radius; sr = 2 sqrt(max radius^2) (3 vertices quick / 4 thorough); a bisector of any generator farther than sr clips no vertex (factor 1.5 refuted); the loop returns the cell unchanged iff the candidate is farther than sr. The history quantifier is a composition argument with C17, not a query.',
                 note=TRUST_M, ref='DESIGN.md 4 C16'),
